@@ -190,7 +190,7 @@ SIZES = {4: 1, 20: 1, 21: 1, 22: 2, 23: 2, 24: 4, 25: 4, 5: 4, 6: 8}
 
 def g_vs(r, name):
     L = ["history " + name, "hopen 16", "vsnew 0"]
-    kind = r.choice(["order", "sum", "sum", "count", "seek", "names", "recover"])
+    kind = r.choice(["order", "sum", "sum", "multi", "multi", "count", "seek", "names", "recover"])
     if kind == "order":
         idx = 1
         for _ in range(r.choice([2, 3, 4])):
@@ -215,6 +215,34 @@ def g_vs(r, name):
             items.insert(r.randrange(0, len(items) + 1), "P")
         L.append("vssetfields 0 %s" % ",".join(items))
         # after a refusal the Vdata must still accept a valid field list
+        L += ["vssetfields 0 1", "vswrite 0 2", "vselts 0", "vsseek 0 1", "vsread 0 1"]
+    elif kind == "multi":
+        # several fields, every one legal on its own, whose sizes sum to 65535 + d in ONE VSsetfields call
+        k = r.choice([3, 4, 5, 6])
+        d = r.choice([-1, 0, 0, 1, 1, 2, 100, 14464, 65535, 65536, 65537])
+        usep = r.random() < 0.3
+        total = 65535 + d - (4 if usep else 0)
+        sizes = []
+        for i in range(k - 1):
+            left = total - sum(sizes) - (k - 1 - i)
+            sizes.append(max(1, min(65535, r.randrange(1, max(2, min(60000, left))))))
+        last = total - sum(sizes)
+        while last > 65535:
+            sizes.append(65535 if r.random() < 0.5 else r.randrange(30000, 65536))
+            last = total - sum(sizes)
+        if last >= 1:
+            sizes.append(last)
+        items = []
+        for i, sz in enumerate(sizes, 1):
+            if sz % 2 == 0 and r.random() < 0.3:
+                L.append("vsfdefine 0 %d 0 22 %d" % (i, sz // 2))
+            else:
+                L.append("vsfdefine 0 %d 0 4 %d" % (i, sz))
+            items.append(str(i))
+        r.shuffle(items)
+        if usep:
+            items.insert(r.randrange(0, len(items) + 1), "P")
+        L.append("vssetfields 0 %s" % ",".join(items))
         L += ["vssetfields 0 1", "vswrite 0 2", "vselts 0", "vsseek 0 1", "vsread 0 1"]
     elif kind == "count":
         nf = r.choice([255, 256, 256, 257, 257, 258, 300])
@@ -243,7 +271,7 @@ def g_vs(r, name):
 
 def g_sd(r, name):
     L = ["history " + name]
-    kind = r.choice(["open", "open", "create", "create", "max"])
+    kind = r.choice(["open", "create", "create", "max", "max", "max"])
     if kind == "create":
         L.append("sdstart 0")
         for _ in range(r.choice([2, 3, 5])):
@@ -269,24 +297,34 @@ def g_sd(r, name):
                 L.append("sdend %d" % k)
         L += ["sdnopen", "sdstart 150", "sdend 150"]
     else:
+        # SDreset_maxopenfiles with holes in the table: the request is aimed at the highest position in use
         L.append("sdlimit 40")
-        if r.random() < 0.5:
+        if r.random() < 0.4:
             L.append("sdmax %d" % r.choice([0, 5, 36, 37, 38, 100, 100000]))
-        nopen = r.choice([2, 3, 6])
+        nopen = r.choice([3, 4, 6])
         for k in range(nopen):
             L.append("sdstart %d" % k)
-        for k in range(nopen - 1):          # close some of the lower positions: the highest one stays in use
-            if r.random() < 0.6:
+        open_ = set(range(nopen))
+        for k in range(nopen - 1):          # close most of the lower positions: the highest one stays in use
+            if r.random() < 0.85:
                 L.append("sdend %d" % k)
-        L += ["sdmax %d" % r.choice([0, 1, 2, 3, nopen - 1, nopen, 5, 10, 36, 37, 38, 1000]), "sdgetmax", "sdnopen"]
-        closed = set(int(l.split()[1]) for l in L if l.startswith("sdend "))
-        for k in range(nopen):
-            if k not in closed:
+                open_.discard(k)
+        hi = nopen - 1
+        for rnd in range(r.choice([1, 2])):
+            req = hi if (rnd == 0 and r.random() < 0.6) else r.choice([hi, hi + 1, hi - 1, len(open_), len(open_) + 1, 0, 1, 2,
+                                                                        10, 36, 37, 38, 1000])
+            L += ["sdmax %d" % req, "sdgetmax", "sdnopen"]
+            for k in sorted(open_):
                 L += ["sdcreate %d 6 2" % k, "sdinfo %d" % k]
-        L += ["sdstart 20", "sdcreate 20 4 1", "sdinfo 20", "sdend 20"]
-        for k in range(nopen):
-            if k not in closed:
-                L.append("sdend %d" % k)
+            if r.random() < 0.6:                # a new file takes the first hole (or the next position)
+                nk = 20 + len(L)
+                L += ["sdstart %d" % nk, "sdcreate %d 4 1" % nk, "sdinfo %d" % nk]
+                if r.random() < 0.5:
+                    L.append("sdend %d" % nk)
+                else:
+                    open_.add(nk)
+        for k in sorted(open_):
+            L.append("sdend %d" % k)
         L.append("sdnopen")
     return L
 
@@ -314,7 +352,7 @@ def g_fn(r, name):
 
 
 GENS = [("eof", g_eof, 10), ("append", g_append, 6), ("seek", g_seek, 4), ("chunk", g_chunk, 1), ("hl", g_hl, 4), ("refs", g_refs, 2), ("vg", g_vg, 4),
-        ("vs", g_vs, 9), ("sd", g_sd, 5), ("fn", g_fn, 2)]
+        ("vs", g_vs, 9), ("sd", g_sd, 6), ("fn", g_fn, 2)]
 
 
 # ------------------------------------------------------------------------------------------------- running
@@ -330,7 +368,12 @@ def split_histories(lines):
     return out
 
 
-def run_histories(ctx, hists, tag):
+def run_histories(ctx, hists, tag, tmo=None):
+    """tmo: watchdog per history in seconds (a call that does not return is a violation: 'hang').  The whole batch is
+    bounded as well: the harness stops after two hangs ('notrun'), and the subprocess has its own timeout."""
+    if tmo is None:
+        tmo = 60 if ctx.tier == "quick" else 240
+    batch = 600 if ctx.tier == "quick" else 3600
     exe = ctx.harness("drive_limits", ["drive_limits.c"])
     mod = ctx.model("limits_model", ["limits_main.ml"], ["limits_model"])
     wd = os.path.join(ctx.bdir, "harness", "c20-%s-%d" % (tag, os.getpid()))
@@ -340,7 +383,7 @@ def run_histories(ctx, hists, tag):
     flat = [l for h in hists for l in h]
     open(p, "w").write("\n".join(flat) + "\n")
     try:
-        rc, out = vc.run_lines(exe, p, timeout=1500, args=[wd])
+        rc, out = vc.run_lines(exe, p, timeout=batch, args=[wd], env={"DRIVE_LIMITS_TIMEOUT": str(tmo)})
         rcs, SM = vc.run_lines(mod, p, timeout=600)
     finally:
         shutil.rmtree(wd, ignore_errors=True)
@@ -349,7 +392,7 @@ def run_histories(ctx, hists, tag):
     R = {}
     diag = []
     for l in out:
-        m = re.match(r"^(\d+) (ok|fail|crash|history|badop)\b(.*)$", l)
+        m = re.match(r"^(\d+) (ok|fail|crash|hang|notrun|history|badop)\b(.*)$", l)
         if m:
             R[int(m.group(1))] = (m.group(2) + m.group(3)).strip()
         elif "ERROR: AddressSanitizer" in l or "SUMMARY:" in l or "runtime error" in l:
@@ -377,7 +420,11 @@ def match(r, s):
 
 
 def first_bad(R, S, lo, hi):
+    if R[lo] == "notrun":
+        return None, None          # the harness gave up after two hangs: this history was not run
     for i in range(lo, hi):
+        if R[i].startswith("hang"):
+            return i, "hang"       # the watchdog fired inside this call: the library did not return
         if R[i].startswith("crash") or R[i] == "missing":
             return i, "crash"
         if not match(R[i], S[i]):
@@ -402,8 +449,12 @@ def first_bad_m(R, M, S, flat, lo, hi):
 def shrink(ctx, hist, limit=30, kind=None):
     """delta debugging on the operation list; a candidate counts only if it fails the same way (a crash stays a
     crash, a mismatch stays a mismatch on the same kind of operation)"""
+    tmo = 20 if kind and kind[0] == "hang" else None   # candidates of a hanging history are cut off early
+    if tmo:
+        limit = min(limit, 6)
+
     def fails(h):
-        rc, R, S, M, flat, _ = run_histories(ctx, [h], "shrink")
+        rc, R, S, M, flat, _ = run_histories(ctx, [h], "shrink", tmo)
         i, k = first_bad(R, S, 0, len(flat))
         return i is not None and (kind is None or (k, flat[i].split()[0]) == kind)
     cur = list(hist)
@@ -431,21 +482,22 @@ def signature(hist, i):
 
 def report(ctx, h, tag):
     """shrink a failing history, write the replay, print VIOLATION"""
-    rc0, R0, S0, M0, flat0, _ = run_histories(ctx, [h], "rep0")
+    t0 = 20 if tag == "hang" else None
+    rc0, R0, S0, M0, flat0, _ = run_histories(ctx, [h], "rep0", t0)
     i0, k0 = first_bad(R0, S0, 0, len(flat0))
     kind0 = (k0, flat0[i0].split()[0]) if i0 is not None else None
     small = shrink(ctx, h, kind=kind0) if len(h) <= 400 else h
-    rc2, R2, S2, M2, flat2, diag = run_histories(ctx, [small], "rep")
+    rc2, R2, S2, M2, flat2, diag = run_histories(ctx, [small], "rep", t0)
     j, kind = first_bad(R2, S2, 0, len(flat2))
     if j is None:
         small = h
-        rc2, R2, S2, M2, flat2, diag = run_histories(ctx, [small], "rep")
+        rc2, R2, S2, M2, flat2, diag = run_histories(ctx, [small], "rep", t0)
         j, kind = first_bad(R2, S2, 0, len(flat2))
         j = j if j is not None else 0
     txt = ["# C20 replay: limit-probing history; library (R) vs specification (S) differ at the marked operation",
            "# run: bin/check C20 --replay <this file>"] + small + [
            "# first difference at op %d: %s" % (j, flat2[j][:200]),
-           "#   library      : %s" % R2[j],
+           "#   library      : %s" % (R2[j] if kind != "hang" else "did not return within the watchdog time (hang)"),
            "#   specification: %s" % S2[j]] + ["#   sanitizer    : " + d for d in diag[:3]]
     ctx.violation("library differs from the limits specification (%s) at: %s -- R: %s / S: %s" % (
         kind, flat2[j][:120], R2[j][:80], S2[j][:80]), "\n".join(txt), found=True, signature=signature(small, j))
@@ -466,7 +518,7 @@ def run(ctx):
             hists.append(g(r, "%s%d" % (gname, i)))
             kinds.append(gname)
     rc, R, S, M, flat, diag = run_histories(ctx, hists, "main")
-    pos, nviol, nbadm = 0, 0, 0
+    pos, nviol, nbadm, nhang, notrun = 0, 0, 0, 0, 0
     opmix, refused, accepted, unspec = {}, 0, 0, 0
     per_kind = {}
     boundary = {"eof_at_limit_ok": 0, "eof_over_limit_fail": 0, "members_65535": 0, "member_refused": 0,
@@ -515,10 +567,14 @@ def run(ctx):
         ctx.case(tuple(h[1:]), nf > 0 and no > 0,
                  sample={"history": h[1:8], "library": seg[1:8]} if len(ctx.coverage["samples"]) < 4 and kd != "corpus" else None)
         i, kind = first_bad(R, S, lo, hi)
-        if i is not None and nviol < 8:
+        if R[lo] == "notrun":
+            notrun += 1
+        if i is not None and kind == "hang":
+            nhang += 1
+        if i is not None and nviol < 8 and (kind != "hang" or nhang <= 1):
             nviol += 1
-            report(ctx, h, kd)
-        jm = first_bad_m(R, M, S, flat, lo, hi)
+            report(ctx, h, "hang" if kind == "hang" else kd)
+        jm = first_bad_m(R, M, S, flat, lo, hi) if R[lo] != "notrun" else None
         if jm is not None and i is None and nbadm < 2:
             nbadm += 1
             txt = ["# C20: function-level call; library (R) vs Coq model LimitsModel (M) differ -- the model no longer",
@@ -526,7 +582,10 @@ def run(ctx):
                    h[0], flat[jm], "#   library: %s" % R[jm], "#   model  : %s" % M[jm]]
             ctx.violation("site model differs from the library at: %s (R: %s, M: %s)" % (flat[jm][:100], R[jm], M[jm]),
                           "\n".join(txt), found=False)
-    ctx.corr("drive_limits~LimitsSpec", histories=len(hists), by_kind=per_kind, operations=len(flat), op_mix=opmix,
+    if rc == 124 and not ctx.violations:
+        ctx.violation("the harness did not finish within its time budget (library hangs?)",
+                      "# C20: harness batch timeout; last operations:\n" + "\n".join(flat[-30:]), found=True)
+    ctx.corr("drive_limits~LimitsSpec", histories=len(hists), hangs=nhang, histories_not_run_after_hangs=notrun, by_kind=per_kind, operations=len(flat), op_mix=opmix,
              library_refusals=refused, library_acceptances=accepted, spec_unspecified_lines=unspec, boundary_hits=boundary,
              corpus_histories=len(corpus), sanitizer_reports=len(diag))
     ctx.corr("sites~LimitsModel", function_level_calls=sum(1 for l, m in zip(flat, M) if l.startswith("fn_") and m != "nomodel"),
@@ -541,7 +600,7 @@ def replay(ctx, path):
     bad = 0
     for i, l in enumerate(flat):
         okm = M[i] in ("nomodel", "history") or (R[i] == M[i] if l.startswith("fn_") else S[i] == "unspec" or match(R[i], M[i]))
-        good = match(R[i], S[i]) and not R[i].startswith("crash") and R[i] != "missing" and okm
+        good = match(R[i], S[i]) and not R[i].startswith(("crash", "hang")) and R[i] != "missing" and okm
         bad += 0 if good else 1
         print("%s %-44s R: %-34s S: %-34s M: %s" % ("  " if good else "!!", l[:44], R[i][:34], S[i][:34], M[i][:40]))
     for d in diag[:4]:
